@@ -192,6 +192,50 @@ func followFull(extra int, then string) scenario {
 	return b.sc
 }
 
+// The handler of the second request is held, clientInputs fills up and the reader
+// parks with the 11th follow-up in its hand; the client drops the connection (the
+// reader is not reading, so only a failing write notices), the service emits, the
+// write loop leaves and releases the reader. Whichever way the reader leaves it has
+// to close clientInputs: the adapter then drains the buffer, ends, and every request
+// is told to stop.
+func followFullDropEmit(k int) scenario {
+	b := newB("follow-full+drop-emit", 1, 2).open(0, 0).lock(0, 0, 1, 2).
+		add(op{S: 0, K: "send", C: 1, Block: true, Wait: true}).
+		add(op{S: 0, K: "sendn", C: 0, V: 11}).
+		add(op{S: 0, K: "waitblocked"}).
+		add(op{S: 0, K: "drop"})
+	for v := 3; v < 3+k; v++ {
+		b.emit(0, 0, v)
+	}
+	// 1 first + 1 held + the 10 buffered follow-ups (the one in the reader's hand is lost)
+	return b.add(op{S: 0, K: "waitwriter"}).add(op{S: 0, K: "release"}).
+		add(op{S: 0, K: "waithandled", V: 12}).sc
+}
+
+// k requests of one session share ONE stop channel (the documented bidirectional use).
+// The stoppers are held at the schedule point stream.stopperClose (right before
+// close(stopServiceChan)); with the mutex around test-and-close only one of them can
+// be there. Needs proposed_fixes/C15-hook-stopper.diff, discarded without it.
+func stopShared(k int, kind string) scenario {
+	b := newB(fmt.Sprintf("stop-shared-%d", k), 1, 1).add(op{S: 0, K: "open", Share: true})
+	for i := 1; i < k; i++ {
+		b.add(op{S: 0, K: "send", C: 0, Share: true, Wait: true})
+	}
+	return b.add(op{S: 0, K: "gate", P: "stream.stopperClose", V: 2}).
+		add(op{S: 0, K: kind}).
+		add(op{S: 0, K: "waithit"}).
+		add(op{S: 0, K: "waithitopt", V: 150}).
+		add(op{S: 0, K: "ungate"}).sc
+}
+
+// stress (thorough tier): 64 requests share one stop channel, the client leaves
+func stopSharedStress(kind string) scenario {
+	return newB("stop-shared-stress", 1, 1).add(op{S: 0, K: "open", Share: true}).
+		add(op{S: 0, K: "sendn", C: 0, V: 63, Share: true}).
+		add(op{S: 0, K: "waithandled", V: 64}).
+		add(op{S: 0, K: kind}).sc
+}
+
 // F19 with one follow-up, forced at the schedule point ws.readerForward (reader
 // goroutine, just before its send on clientInputs). Needs proposed_fixes/C15-hooks.diff;
 // without it the point is never reached and the scenario is discarded.
@@ -259,6 +303,8 @@ func corpus() []interface{} {
 		badFollow("bad", 1, "emit", true),  // F18: send on closed outChan
 		badFollow("bad", 1, "end", true),   // F18: close of closed outChan
 		badFollow("bad", 0, "leave", false), // F18: stop never signalled
+		followFullDropEmit(3),              // reader leaves through done: clientInputs must still be closed
+		stopShared(2, "close"),             // two stoppers, one stop channel: test-and-close is one critical section
 		followFull(0, "end"),               // F19: reader blocked in its send when clientInputs is closed
 		followNewFirstEnd(1, 1),            // F29: first forwarder to finish closes outChan under the second
 		followSharedBurst(2, 5),            // C15-N2: forwarders on one service channel overtake each other
@@ -340,6 +386,16 @@ func genAll(rng *rand.Rand, tier string) []interface{} {
 		add(followThenLeave(p, []string{"close", "drop"}[rng.Intn(2)]))
 	}
 	add(followFull(0, "end"))
+	add(followFullDropEmit(3 + rng.Intn(3)))
+	add(stopShared(2, "close"))
+	add(stopShared(3, "drop"))
+	if !quick {
+		add(stopShared(2, "drop"))
+		add(stopShared(5, "close"))
+		for i := 0; i < 300; i++ {
+			add(stopSharedStress([]string{"close", "drop"}[i%2]))
+		}
+	}
 	add(hookReaderForward(rng.Intn(3)))
 	add(followFull(rng.Intn(3), "close"))
 	add(followFull(1+rng.Intn(3), "none"))
